@@ -136,6 +136,38 @@ class MapV:
         self.present = z3.Store(self.present, kt, z3.BoolVal(True))
         self.comps = [(z3.Store(a, kt, term(x, srt)), srt) for (a, srt), x in zip(self.comps, vs)]
 
+    def get_attr(self, ip, name):
+        from . import interp as I
+
+        if name == "setdefault":
+            def setdefault(ip_, a, k):
+                kt = term(a[0], self.ksort)
+                has = mk(z3.Select(self.present, kt), "bool")
+                if ip_.branch(has):
+                    return self.value_at(kt)
+                self.set_item(ip_, a[0], a[1])
+                return a[1]
+            return I.PyFn("setdefault", setdefault)
+        if name == "get":
+            def get(ip_, a, k):
+                kt = term(a[0], self.ksort)
+                if ip_.branch(mk(z3.Select(self.present, kt), "bool")):
+                    return self.value_at(kt)
+                return a[1] if len(a) > 1 else None
+            return I.PyFn("get", get)
+        if name == "pop":
+            def pop(ip_, a, k):
+                kt = term(a[0], self.ksort)
+                if ip_.branch(mk(z3.Select(self.present, kt), "bool")):
+                    v = self.value_at(kt)
+                    self.present = z3.Store(self.present, kt, z3.BoolVal(False))
+                    return v
+                if len(a) > 1:
+                    return a[1]
+                raise PyRaise(ExcV("KeyError", ()))
+            return I.PyFn("pop", pop)
+        raise EngineError(f"dict.{name} on a symbolic map")
+
     def truthy(self):
         raise EngineError("truthiness of a symbolic map")
 
@@ -325,7 +357,7 @@ def to_bool_term(v):
             return v.t != 0
         if v.sort == "real":
             return v.t != 0
-        raise EngineError("truthiness of symbolic str")
+        return v.t != z3.StringVal("")
     return z3.BoolVal(bool(v))
 
 
